@@ -3428,7 +3428,7 @@ static size_t ZBUFF_decompressContinue(ZBUFF_DCtx* zbc, void* dst, size_t* maxDs
 
         case ZBUFFds_decodeHeader:
                 /* apply header to create / resize buffers */
-                {   size_t const neededOutSize = (size_t)1 << zbc->params.windowLog;
+                {   size_t const neededOutSize = ((size_t)1 << zbc->params.windowLog) + BLOCKSIZE + 16;   /* window + room for the block being written + wildcopy margin */
                     size_t const neededInSize = BLOCKSIZE;   /* a block is never > BLOCKSIZE */
                     if (zbc->inBuffSize < neededInSize) {
                         free(zbc->inBuff);
